@@ -11,12 +11,10 @@ use vstd::prelude::*;
 
 verus! {
 
-// ---- environment: bcder::Captured --------------------------------------------------------------
-/// opaque stand-in for bcder::Captured (a `bytes::Bytes` with a decoding mode)
-#[verifier::external_body]
-pub struct Captured { _o: u8 }
-/// the captured octets
-pub uninterp spec fn captured_view(c: Captured) -> Seq<u8>;
+// ---- environment and specification vocabulary (shared with the composition units) ----------------
+// the stand-in `Captured` with `captured_view`, `der_len`, `set_of_encoding`, `SignedAttrs::view`
+//@include shared/cms_vocab.v.rs
+
 impl Captured {
     /// bcder: Deref<Target = Bytes>, Bytes::len = number of octets (assumed)
     #[verifier::external_body]
@@ -30,22 +28,6 @@ impl Captured {
     pub fn as_ref(&self) -> (r: &[u8])
         ensures r@ == captured_view(*self)
     { unimplemented!() }
-}
-
-// ---- specification -----------------------------------------------------------------------------
-/// minimal DER definite-length octets for a length n <= 0xFFFF (X.690 8.1.3 with 10.1)
-pub open spec fn der_len(n: int) -> Seq<u8> {
-    if n < 128 {
-        seq![n as u8]
-    } else if n < 256 {
-        seq![0x81u8, n as u8]
-    } else {
-        seq![0x82u8, (n / 256) as u8, (n % 256) as u8]
-    }
-}
-/// the signature input: SET OF tag, minimal length, content
-pub open spec fn set_of_encoding(attrs: Seq<u8>) -> Seq<u8> {
-    seq![0x31u8] + der_len(attrs.len() as int) + attrs
 }
 
 pub mod lem {
@@ -71,8 +53,6 @@ pub mod lem {
 pub struct SignedAttrs(pub Captured);
 
 impl SignedAttrs {
-    pub open spec fn view(&self) -> Seq<u8> { captured_view(self.0) }
-
     //@fn src/repository/sigobj.rs :: impl SignedAttrs :: encode_verify
     //@spec
         requires
